@@ -192,9 +192,26 @@ def main():
     except DriverError as e:
         print(f"BROKEN: {e}")
         sys.exit(2)
-    except Exception:
-        print("BROKEN: harness crashed\n" + traceback.format_exc())
-        sys.exit(2)
+    except Exception as e:
+        tb = traceback.format_exc()
+        frames = traceback.extract_tb(e.__traceback__)
+        from common import REPO
+        impl_frames = [f for f in frames if os.path.abspath(f.filename).startswith(os.path.join(os.path.abspath(REPO), "pyflwdir"))]
+        if impl_frames and type(e).__name__ not in ("KeyboardInterrupt",):
+            # the exception was raised INSIDE the implementation on an input the harness generated from
+            # the documented domain: that is the property failing (an internal error), not a harness bug
+            last = impl_frames[-1]
+            ctx.failures.append({"desc": {"op": "implementation raised inside a harness call", "where": f"{os.path.basename(last.filename)}:{last.lineno} in {last.name}",
+                                          "last_cases": [c[1] for c in ctx.cases[-2:]]},
+                                 "kind": "spec", "what": f"implementation raised {type(e).__name__}: {str(e)[:200]} at {os.path.basename(last.filename)}:{last.lineno} ({last.name}) on a generated valid input",
+                                 "traceback": tb[-1500:]})
+            try:
+                ctx.flush()
+            except Exception:  # noqa: BLE001
+                pass
+        else:
+            print("BROKEN: harness crashed\n" + tb)
+            sys.exit(2)
 
     # 4. decision
     known = [k for k in load_known_findings() if k.get("property") == prop and k.get("status") == "open"]
